@@ -172,6 +172,33 @@ theorem resume_equivalent (st : Store) (id c B : Nat) (hc : 0 < c) (hcB : c ≤ 
   rw [hws] at b2 b3
   exact ⟨a1, by rw [a2, b2], by rw [a3, b3], by rw [a4, b4]⟩
 
+/-- **delete_tracked_leaves_nothing.**  On a tracked bucket (with no other marker pending) Delete only
+    writes a marker; the following Cleanup removes the file record, every chunk of the file and the marker. -/
+theorem delete_tracked_leaves_nothing (st : Store) (id c B : Nat) (hc : 0 < c) (hcB : c ≤ B)
+    (hC : ∀ d ∈ st.chunks, d.file ≠ id) (hF : ∀ f ∈ st.files, f.id ≠ id) (hM : st.markers = [])
+    (content : Bytes) (plan : List (List Nat)) (last : List Nat) :
+    (delete (trackedUpload st content id c B plan last).1 true id).2 = none ∧
+    (cleanup (delete (trackedUpload st content id c B plan last).1 true id).1 true).2 = none ∧
+    (cleanup (delete (trackedUpload st content id c B plan last).1 true id).1 true).1.chunks = st.chunks ∧
+    (cleanup (delete (trackedUpload st content id c B plan last).1 true id).1 true).1.files = st.files ∧
+    (cleanup (delete (trackedUpload st content id c B plan last).1 true id).1 true).1.markers = [] := by
+  obtain ⟨_, a2, a3, a4⟩ := trackedUpload_ok st id c B hc hcB hC hF (by rw [hM]; simp) (by rw [hM]; simp) content plan last
+  rw [hM] at a4
+  generalize trackedUpload st content id c B plan last = r at a2 a3 a4
+  obtain ⟨st1, e⟩ := r
+  simp only at a2 a3 a4
+  obtain ⟨files, chunks, markers, nextId⟩ := st1
+  simp only at a2 a3 a4
+  subst a2 a3 a4
+  have hf : (st.files ++ [(⟨id, content.length, c⟩ : FileDoc)]).filter (fun f => f.id != id) = st.files := by
+    rw [List.filter_append]
+    have : st.files.filter (fun f => f.id != id) = st.files := by
+      rw [List.filter_eq_self]; intro f hf; simp [hF f hf]
+    rw [this]; simp
+  have hch := filter_ne_append_mkDocs st.chunks id (chunksOf c content) 0 hC
+  simp [delete, Store.findMarker, Store.insertMarker, cleanup, cleanupLoop, Store.deleteFile, Store.deleteChunks,
+    Store.deleteMarkerById, hf, hch]
+
 /-! ### Boundary of the property (behaviours of the code that the hypotheses exclude) -/
 
 /-- DownloadStream.Seek accepts an unknown `whence` and seeks to position 0, where the in-memory reader
@@ -219,6 +246,9 @@ example := abort_leaves_nothing {} true 1 4 8 (by decide) (by decide) (by simp) 
 
 example := delete_leaves_nothing {} 1 4 8 (by decide) (by decide) (by simp) (by simp) (by simp) (by simp)
   [[1, 2, 3, 4, 5], [6, 7, 8, 9, 10]]
+
+example := delete_tracked_leaves_nothing {} 1 4 8 (by decide) (by decide) (by simp) (by simp) rfl
+  [1, 2, 3, 4, 5, 6, 7, 8, 9, 10] [[3]] []
 
 /-- two suspensions (after 6 and after 3 more bytes), then the rest -/
 example := resume_equivalent {} 1 4 8 (by decide) (by decide) (by simp) (by simp) (by simp) (by simp)
